@@ -535,6 +535,9 @@ logging.disable(logging.CRITICAL)
 import cutplace
 from cutplace import interface, errors
 interface.import_plugins(sys.argv[1])
+for other_folder in sys.argv[4:]:
+    # a second plugin folder whose module happens to have the same file name: its classes come on top of the first one's
+    interface.import_plugins(other_folder)
 # what a program does between importing its plugins and using them: allocate (the collector runs), maybe collect explicitly
 junk = [[str(i), [i]] for i in range(200000)]
 del junk
@@ -576,6 +579,14 @@ def plugin_case(ctx, index):
     else:
         cmd = [sys.executable, "-c", IMPORT_SCRIPT, folder, cid_path, data_path]
         mode = "continue"
+        if index % 4 == 1:
+            second = folder + " second"
+            os.makedirs(second, exist_ok=True)
+            with open(os.path.join(second, "plug_rec.py"), "w") as f:
+                f.write("from cutplace import fields\n\n\nclass SecondFolderFieldFormat(fields.TextFieldFormat):\n    pass\n")
+            cmd.append(second)
+            case["second_plugin_folder_with_a_module_of_the_same_name"] = True
+            ctx.count("plugin.two-folders-one-module-name")
     try:
         proc = subprocess.run(cmd, env=env, capture_output=True, text=True, timeout=120, cwd=folder)
     except subprocess.TimeoutExpired:
